@@ -6,8 +6,8 @@ From GVL Require Import NList Wire.
 From GV_pipeline Require Import Model.
 Open Scope N_scope.
 
-Ltac prj := cbn [r_tcp r_setup r_ph r_active r_w r_queue r_ring r_rp r_wp r_wire r_con r_deliv r_hist r_lost upd_ctl upd_data upd_ring].
-Ltac prjin H := cbn [r_tcp r_setup r_ph r_active r_w r_queue r_ring r_rp r_wp r_wire r_con r_deliv r_hist r_lost upd_ctl upd_data upd_ring] in H.
+Ltac prj := cbn [r_tcp r_setup r_ph r_active r_w r_queue r_ring r_rp r_wp r_wire r_con r_deliv r_hist r_lost r_rx r_resets upd_ctl upd_data upd_ring upd_rx].
+Ltac prjin H := cbn [r_tcp r_setup r_ph r_active r_w r_queue r_ring r_rp r_wp r_wire r_con r_deliv r_hist r_lost r_rx r_resets upd_ctl upd_data upd_ring upd_rx] in H.
 
 (* ---------- small list facts ---------- *)
 Lemma nnth_Some_lt {A} (l : list A) i x : nnth i l = Some x -> i < nlen l.
@@ -132,6 +132,10 @@ Definition dentry_ok (c : cfg) (W : wlist) (d : dentry) : Prop :=
   exists p0 fs s, nnth (d_idx d) W = Some (d_m d, d_f d, p0) /\ nnth (d_m d) (c_medias c) = Some fs /\
     find_fmt fs (p_pt p0) = Some (d_f d, s) /\ d_pkt d = set_ssrc p0 s.
 
+(* every earlier delivery of that format has a smaller write index *)
+Definition newer (dl : list dentry) (m f idx : N) : bool :=
+  forallb (fun d => negb (same_mf m f d) || (d_idx d <? idx)) dl.
+
 (* per format, deliveries carry strictly increasing write indices *)
 Inductive inc_mf : list dentry -> Prop :=
 | inc_nil : inc_mf []
@@ -150,10 +154,10 @@ Definition didxs (l : list dentry) : list N := map d_idx l.
 Definition nl_i (l : list item) : list item := filter (fun x => negb (i_late x)) l.
 Definition nl_d (l : list dentry) : list dentry := filter (fun d => negb (d_late d)) l.
 
-(* the part of the deliveries that is ordered: over UDP the receiver's filter orders everything; over TCP
-   only what was pushed while the writer was open *)
-Definition ordered_part (r : rstate) : list dentry :=
-  if r_tcp r then nl_d (r_deliv r) else r_deliv r.
+(* the part of the deliveries that is ordered: those without the ghost flag d_late.  Over TCP the flag
+   marks packets pushed after the writer was closed; over UDP it marks what is delivered from the
+   receiver's first position reset on. *)
+Definition ordered_part (r : rstate) : list dentry := nl_d (r_deliv r).
 
 Record rinv (c : cfg) (W : wlist) (r : rstate) : Prop := mkRinv {
   ri_su : NoDup (map snd (r_setup r));
@@ -169,7 +173,10 @@ Record rinv (c : cfg) (W : wlist) (r : rstate) : Prop := mkRinv {
      (cnt n (didxs (r_deliv r)) + cnt n (r_lost r) + cnt n (idxs (r_wire r)) + cnt n (idxs (r_queue r))
       + cnt n (idxs (ritems (r_ring r))))%nat;
   ri_hist : Forall (fun i => i < nlen W) (r_hist r) /\ sinc (r_hist r);
-  ri_ropen : (forall b, r_w r <> WClosed b) -> ritems (r_ring r) = [] }.
+  ri_ropen : (forall b, r_w r <> WClosed b) -> ritems (r_ring r) = [];
+  ri_udp : r_tcp r = false -> r_resets r = 0 -> Forall (fun d => d_late d = false) (r_deliv r);
+  ri_rx : r_tcp r = false -> r_resets r = 0 -> forall d, In d (r_deliv r) ->
+          exists last neg, rx_get (r_rx r) (d_m d) (d_f d) = Some (last, neg) /\ d_idx d <= last }.
 
 Definition sinv (c : cfg) (st : state) : Prop := Forall (rinv c (s_written st)) (s_readers st).
 
@@ -239,7 +246,7 @@ Proof. intros H. eapply Forall_impl; [|exact H]. intros; now apply item_ok_mono.
 
 Lemma rinv_mono c W e r : rinv c W r -> rinv c (W ++ [e]) r.
 Proof.
-  intros [H1 (H2 & H2') (Hr & Hr') H3 H4 H5 H6 H7 H8 H9 (H10 & H10') H11]. constructor; auto.
+  intros [H1 (H2 & H2') (Hr & Hr') H3 H4 H5 H6 H7 H8 H9 (H10 & H10') H11 H12 H13]. constructor; auto.
   - split; [now apply items_mono|exact H2'].
   - split; [now apply items_mono|exact Hr'].
   - now apply items_mono.
@@ -254,7 +261,7 @@ Lemma rinv_ctl_same c W r ph a w con :
   ((forall b, r_w r <> WClosed b) \/ w = r_w r) ->
   rinv c W (upd_ctl r ph a w con).
 Proof.
-  intros [H1 H2 Hr H3 H4 H5 H6 H7 H8 H9 H10 H11] Hp Hw. constructor; prj; auto.
+  intros [H1 H2 Hr H3 H4 H5 H6 H7 H8 H9 H10 H11 H12 H13] Hp Hw. constructor; prj; auto.
   intros Hn. destruct Hw as [Hw| ->]; auto.
 Qed.
 
@@ -269,7 +276,7 @@ Ltac nc E := left; intros ?; rewrite E; discriminate.
 
 Lemma rinv_ctl c W k r r' : rinv c W r -> r_ctl c k r = Some r' -> rinv c W r'.
 Proof.
-  intros Hi H. pose proof Hi as [H1 (H2 & H2') (Hr & Hr') H3 H4 H5 H6 H7 H8 H9 (H10 & H10') H11].
+  intros Hi H. pose proof Hi as [H1 (H2 & H2') (Hr & Hr') H3 H4 H5 H6 H7 H8 H9 (H10 & H10') H11 H12 H13].
   destruct k; cbn [r_ctl] in H.
   - (* playreq *) unfold r_playreq in H. destruct (r_ph r), (r_w r) eqn:Ew; try discriminate.
     destruct (r_active r); [discriminate|]. inversion H; subst. apply rinv_ctl_same; auto. phi.
@@ -367,9 +374,43 @@ Proof.
   destruct (N.ltb_spec (d_idx d) idx); [|lia]. now rewrite orb_true_r.
 Qed.
 
+Lemma rx_get_set_same rx m f v : rx_get (rx_set rx m f v) m f = Some v.
+Proof.
+  induction rx as [|[[m' f'] v'] t IH]; cbn [rx_set rx_get].
+  - now rewrite !N.eqb_refl.
+  - destruct ((m' =? m) && (f' =? f)) eqn:E; cbn [rx_get]; [now rewrite !N.eqb_refl|]. rewrite E. exact IH.
+Qed.
+
+Lemma rx_get_set_other rx m f v m2 f2 :
+  (m2 =? m) && (f2 =? f) = false -> rx_get (rx_set rx m f v) m2 f2 = rx_get rx m2 f2.
+Proof.
+  intros Hne. induction rx as [|[[m' f'] v'] t IH]; cbn [rx_set rx_get].
+  - rewrite (N.eqb_sym m), (N.eqb_sym f), Hne. reflexivity.
+  - destruct ((m' =? m) && (f' =? f)) eqn:E; cbn [rx_get].
+    + apply andb_prop in E. destruct E as (E1 & E2).
+      assert (m' = m) by lia. assert (f' = f) by lia. subst m' f'.
+      rewrite (N.eqb_sym m), (N.eqb_sym f), Hne. reflexivity.
+    + destruct ((m' =? m2) && (f' =? f2)); [reflexivity|exact IH].
+Qed.
+
+(* the receiver state keeps covering every delivery when the entry of (m, f) moves to a value that is
+   not below what it covered *)
+Lemma rx_cover_set (dl : list dentry) rx m f v :
+  (forall d, In d dl -> exists last neg, rx_get rx (d_m d) (d_f d) = Some (last, neg) /\ d_idx d <= last) ->
+  (forall d last neg, In d dl -> d_m d = m -> d_f d = f -> rx_get rx m f = Some (last, neg) -> d_idx d <= last -> d_idx d <= fst v) ->
+  forall d, In d dl -> exists last neg, rx_get (rx_set rx m f v) (d_m d) (d_f d) = Some (last, neg) /\ d_idx d <= last.
+Proof.
+  intros Hc Hv d Hd. destruct (Hc d Hd) as (last & neg & Hg & Hle).
+  destruct ((d_m d =? m) && (d_f d =? f)) eqn:Ek.
+  - apply andb_prop in Ek. destruct Ek as (E1 & E2). assert (Hm : d_m d = m) by lia. assert (Hf : d_f d = f) by lia.
+    rewrite Hm, Hf, rx_get_set_same. destruct v as [v1 v2]. exists v1, v2. split; [reflexivity|].
+    rewrite Hm, Hf in Hg. exact (Hv d last neg Hd Hm Hf Hg Hle).
+  - rewrite (rx_get_set_other _ _ _ _ _ _ Ek). eauto.
+Qed.
+
 Lemma rinv_arrive c W i r r' od : rinv c W r -> r_arrive c i r = Some (r', od) -> rinv c W r'.
 Proof.
-  intros Hi H. pose proof Hi as [H1 (H2 & H2') (Hr & Hr') H3 H4 H5 H6 H7 H8 H9 (H10 & H10') H11].
+  intros Hi H. pose proof Hi as [H1 (H2 & H2') (Hr & Hr') H3 H4 H5 H6 H7 H8 H9 (H10 & H10') H11 H12 H13].
   unfold r_arrive in H. destruct (r_con r); cbn [negb] in H; [|discriminate].
   destruct (r_tcp r && negb (i =? 0)) eqn:Eti; [discriminate|].
   destruct (take_nth i (r_wire r)) as [[x wi]|] eqn:Et; [|discriminate].
@@ -379,7 +420,7 @@ Proof.
     now apply nlen_nil_iff. }
   rewrite Ew in H3. apply Forall_app in H3. destruct H3 as (H3a & H3b). inversion H3b as [|? ? Hx H3b']; subst.
   assert (Hdrop : rinv c W (upd_data r (r_queue r) (a ++ b) (r_deliv r) (r_hist r) (r_lost r ++ [i_idx x]))).
-  { constructor; prj; auto; fin H5 H11.
+  { constructor; prj; auto.
     - apply Forall_app; auto.
     - intros Ht. specialize (H6 Ht). rewrite Ew in H6. rewrite (Ha0 Ht) in *. cbn [app] in *.
       unfold nl_i in *. cbn [filter] in H6. destruct (i_late x); cbn [negb] in H6; [exact H6|].
@@ -388,30 +429,77 @@ Proof.
       rewrite (cnt_cons n (i_idx x) (map i_idx b)). unfold idxs. lia. }
   destruct (demux_ok _ _ _ _ H1 Hx) as (fs & s & D1 & D2 & D3 & D4).
   rewrite D1, D2, D3 in H.
-  destruct (r_tcp r || newer (r_deliv r) (i_m x) (i_f x) (i_idx x)) eqn:Enew;
-    inversion H; subst; [|exact Hdrop].
-  constructor; prj; auto; fin H5 H11.
-  - apply Forall_app; auto.
-  - apply Forall_app; auto.
-  - unfold ordered_part in *; prj. destruct (r_tcp r) eqn:Et'.
-    + rewrite nl_d_snoc. cbn [d_late]. destruct (i_late x) eqn:El; [now rewrite app_nil_r|].
+  assert (D4' : forall late, dentry_ok c W (mkD (i_m x) (i_f x) (i_idx x) late (i_pkt x))).
+  { intros late. destruct D4 as (p0 & fs' & s' & E1 & E2). exists p0, fs', s'. exact (conj E1 E2). }
+  assert (Hcons : forall n, cnt n (r_hist r) =
+     (cnt n (didxs (r_deliv r) ++ [i_idx x]) + cnt n (r_lost r) + cnt n (idxs (a ++ b)) + cnt n (idxs (r_queue r))
+      + cnt n (idxs (ritems (r_ring r))))%nat).
+  { intros n. rewrite (H9 n), Ew, !idxs_app, !cnt_app. cbn [idxs map].
+    rewrite (cnt_cons n (i_idx x) (map i_idx b)). unfold idxs. lia. }
+  destruct (r_tcp r) eqn:Et'.
+  - (* TCP: delivered as is *)
+    inversion H; subst. constructor; prj; auto; try (intros; congruence).
+    + apply Forall_app; auto.
+    + apply Forall_app; auto.
+    + unfold ordered_part in *; prj. rewrite nl_d_snoc. cbn [d_late]. destruct (i_late x) eqn:El; [now rewrite app_nil_r|].
       apply (inc_snoc _ (mkD (i_m x) (i_f x) (i_idx x) false (i_pkt x))); [exact H5|]. cbn [d_m d_f d_idx].
       apply newer_of_all_lt. specialize (H6 eq_refl). rewrite Ew, (Ha0 eq_refl) in H6.
       cbn [app] in H6. unfold nl_i in H6. cbn [filter] in H6. rewrite El in H6. cbn [negb idxs map] in H6.
       apply sinc_app in H6. destruct H6 as (_ & _ & H6).
       eapply Forall_impl; [|exact H6]. intros j Hj. cbv beta in Hj. now inversion Hj.
-    + apply (inc_snoc _ (mkD (i_m x) (i_f x) (i_idx x) (i_late x) (i_pkt x))); [exact H5|]. exact Enew.
-  - intros Ht. specialize (H6 Ht). rewrite Ew, (Ha0 Ht) in H6. rewrite (Ha0 Ht).
-    rewrite nl_d_snoc. cbn [d_late app] in *. unfold nl_i in *. cbn [filter] in H6.
-    destruct (i_late x); cbn [negb] in H6; [now rewrite app_nil_r|].
-    rewrite didxs_app. cbn [idxs map didxs d_idx app] in *. now rewrite <- app_assoc.
-  - intros n. rewrite (H9 n), Ew, !idxs_app, didxs_app, !cnt_app. cbn [idxs map didxs d_idx].
-    rewrite (cnt_cons n (i_idx x) (map i_idx b)). unfold idxs. lia.
+    + intros _. specialize (H6 eq_refl). rewrite Ew, (Ha0 eq_refl) in H6. rewrite (Ha0 eq_refl).
+      rewrite nl_d_snoc. cbn [d_late app] in *. unfold nl_i in *. cbn [filter] in H6.
+      destruct (i_late x); cbn [negb] in H6; [now rewrite app_nil_r|].
+      rewrite didxs_app. cbn [idxs map didxs d_idx app] in *. now rewrite <- app_assoc.
+    + intros n. rewrite didxs_app. exact (Hcons n).
+  - (* UDP: the receiver's filter *)
+    assert (Hdeliver : forall resets,
+      (resets = r_resets r /\
+         (rx_get (r_rx r) (i_m x) (i_f x) = None \/
+          exists last neg, rx_get (r_rx r) (i_m x) (i_f x) = Some (last, neg) /\ last < i_idx x)) \/
+      resets = r_resets r + 1 ->
+      rinv c W (upd_rx (upd_data r (r_queue r) (a ++ b)
+                 (r_deliv r ++ [mkD (i_m x) (i_f x) (i_idx x) (negb (resets =? 0)) (i_pkt x)]) (r_hist r) (r_lost r))
+                 (rx_set (r_rx r) (i_m x) (i_f x) (i_idx x, 0)) resets)).
+    { intros resets Hres. constructor; prj; auto; try (intros; congruence).
+      - apply Forall_app; auto.
+      - apply Forall_app; auto.
+      - unfold ordered_part in *; prj. rewrite nl_d_snoc. cbn [d_late].
+        destruct (N.eqb_spec resets 0) as [Hz|Hz]; cbn [negb]; [|now rewrite app_nil_r].
+        destruct Hres as [(Hr0 & Hrx)|Hr0]; [|lia].
+        apply (inc_snoc _ (mkD (i_m x) (i_f x) (i_idx x) false (i_pkt x))); [exact H5|]. cbn [d_m d_f d_idx].
+        unfold newer. apply forallb_forall. intros d' Hd'. unfold nl_d in Hd'. apply filter_In in Hd'. destruct Hd' as (Hd' & _).
+        destruct (same_mf (i_m x) (i_f x) d') eqn:Es; [|reflexivity]. cbn [negb orb].
+        unfold same_mf in Es. apply andb_prop in Es. destruct Es as (Em & Ef).
+        assert (Hm : d_m d' = i_m x) by lia. assert (Hf : d_f d' = i_f x) by lia.
+        destruct (H13 eq_refl ltac:(lia) d' Hd') as (last & neg & Hg & Hle).
+        rewrite Hm, Hf in Hg.
+        destruct Hrx as [Hn|(last' & neg' & Hg' & Hlt)]; [congruence|]. rewrite Hg in Hg'. inversion Hg'; subst. lia.
+      - intros n. rewrite didxs_app. exact (Hcons n).
+      - intros _ Hz. apply Forall_app; split; [apply H12; auto; destruct Hres as [(-> & _)| ->]; lia|].
+        constructor; [|constructor]. cbn [d_late]. subst resets. reflexivity.
+      - intros _ Hz. destruct Hres as [(Hr0 & Hrx)|Hr0]; [|lia]. subst resets.
+        intros d' Hd'. apply in_app_or in Hd'. destruct Hd' as [Hd'|[<-|[]]].
+        + apply (rx_cover_set (r_deliv r) (r_rx r) (i_m x) (i_f x) (i_idx x, 0)); auto.
+          intros d last neg Hd Hm Hf Hg Hle. cbn [fst].
+          destruct Hrx as [Hn|(last' & neg' & Hg' & Hlt)]; [congruence|]. rewrite Hg in Hg'. inversion Hg'; subst. lia.
+        + cbn [d_m d_f d_idx]. rewrite rx_get_set_same. exists (i_idx x), 0. split; [reflexivity|lia]. }
+    destruct (rx_get (r_rx r) (i_m x) (i_f x)) as [[last neg]|] eqn:Eg.
+    + destruct (N.ltb_spec last (i_idx x)).
+      * inversion H; subst. apply Hdeliver. left. split; [reflexivity|]. right. eauto.
+      * destruct (c_B c <? neg + 1).
+        -- inversion H; subst. apply Hdeliver. now right.
+        -- inversion H; subst. cbn [fst].
+           pose proof Hdrop as [K1 K2 K3 K4 K5 K6 K7 K8 K9 K10 K11 K12 K13 K14].
+           constructor; prj; auto. intros Ht Hz.
+           apply (rx_cover_set (r_deliv r) (r_rx r) (i_m x) (i_f x) (last, neg + 1)); auto.
+           intros d l' n' Hd Hm Hf Hg Hle. cbn [fst]. rewrite Eg in Hg. inversion Hg; subst. exact Hle.
+    + inversion H; subst. apply Hdeliver. left. split; [reflexivity|]. now left.
 Qed.
 
 Lemma rinv_lose c W i r r' : rinv c W r -> r_lose i r = Some r' -> rinv c W r'.
 Proof.
-  intros Hi H. pose proof Hi as [H1 (H2 & H2') (Hr & Hr') H3 H4 H5 H6 H7 H8 H9 (H10 & H10') H11].
+  intros Hi H. pose proof Hi as [H1 (H2 & H2') (Hr & Hr') H3 H4 H5 H6 H7 H8 H9 (H10 & H10') H11 H12 H13].
   unfold r_lose in H. destruct (r_tcp r) eqn:Et; [discriminate|].
   destruct (take_nth i (r_wire r)) as [[x wi]|] eqn:E; [|discriminate].
   destruct (take_nth_split _ _ _ _ E) as (a & b & Ew & -> & Hla). inversion H; subst.
@@ -433,7 +521,7 @@ Proof.
   intros Hi Hm Hf H. unfold r_push in H.
   destruct (r_active r); [|inversion H; subst; now apply rinv_mono].
   destruct (chan_of (r_setup r) m) as [ch|] eqn:Ech; [|inversion H; subst; now apply rinv_mono].
-  pose proof Hi as [_ (G2 & _) _ G3 G4 _ G6 _ _ _ (G10 & _) _].
+  pose proof Hi as [_ (G2 & _) _ G3 G4 _ G6 _ _ _ (G10 & _) _ _ _].
   assert (Hnew : forall late, item_ok c (W ++ [(m, f, p)]) (r_setup r) (mkItem ch m f (nlen W) late (set_ssrc p s))).
   { intros late. exists p, fs, s. cbn [i_idx i_m i_f i_pkt i_chan]. split; [apply nnth_app_len|auto]. }
   assert (Hhist : forall h, Forall (fun i => i < nlen W) h -> sinc h ->
@@ -444,7 +532,7 @@ Proof.
       + constructor; [|constructor]. rewrite nlen_app. cbn [nlen]. lia.
     - apply sinc_snoc. split; assumption. }
   apply (rinv_mono _ _ (m, f, p)) in Hi.
-  pose proof Hi as [H1 (H2 & H2') (Hr & Hr') H3 H4 H5 H6 H7 H8 H9 (H10 & H10') H11].
+  pose proof Hi as [H1 (H2 & H2') (Hr & Hr') H3 H4 H5 H6 H7 H8 H9 (H10 & H10') H11 H12 H13].
   destruct (r_w r) as [|st|st] eqn:Ew; [inversion H; subst; exact Hi| |].
   - destruct (nlen (r_queue r) <? c_Q c) eqn:Elt; inversion H; subst; [|exact Hi].
     constructor; prj; auto; fin H5 H11.
@@ -583,7 +671,7 @@ Lemma init_inv c rs : readers_ok rs -> sinv c (init rs).
 Proof.
   unfold sinv, init, readers_ok. cbn [s_written s_readers]. intros H.
   eapply Forall_impl; [|exact H]. intros r (tcp & su & -> & Hnd).
-  constructor; cbn; auto; try constructor; try lia.
+  constructor; cbn; auto; try constructor; try lia; try (intros; discriminate); try (intros; contradiction).
 Qed.
 
 Definition reach (c : cfg) (rs : list rstate) (st : state) : Prop :=
